@@ -25,6 +25,9 @@ func gcFix() *Fix {
 	// D1: an image of the docker schema 2 media types
 	f.Blob("dc", types.MediaTypeDocker2ImageConfig, []byte(`{"docker":true}`))
 	f.Image("D1", types.MediaTypeDocker2Manifest, "dc", []string{"l2"}, "", "", nil)
+	// b512: a blob addressed by its sha512 digest (a second algorithm directory in the layout)
+	b := f.Blob("b512", "application/octet-stream", []byte("addressed by sha512"))
+	b.Dig = h.Dig("sha512", b.Data)
 	return f
 }
 
@@ -143,7 +146,7 @@ func c05Policies(tier string) []GCPolicy {
 func c05Specs(tier string) []*h.SeqSpec {
 	f := gcFix()
 	const repo = "r"
-	items := []string{"c", "l1", "l2", "e", "dc", "I1", "I2", "X", "Y", "A1", "A4", "A5", "J", "Z", "C", "D1"}
+	items := []string{"c", "l1", "l2", "e", "dc", "I1", "I2", "X", "Y", "A1", "A4", "A5", "J", "Z", "C", "D1", "b512"}
 	var specs []*h.SeqSpec
 	for _, store := range []string{"mem", "dir"} {
 		for _, pol := range c05Policies(tier) {
@@ -167,6 +170,7 @@ func c05Specs(tier string) []*h.SeqSpec {
 			macro("Z", "")
 			macro("C", "")
 			macro("D1", "d") // an image of the docker schema 2 type: its config and layers are content like any other
+			ops = append(ops, opPushBlob("C05", repo, f, "b512"))
 			// fine grained: the pieces of one image as separate steps (a collection can fall between them)
 			ops = append(ops, opPushBlob("C05", repo, f, "c"), opPushBlob("C05", repo, f, "l1"))
 			ops = append(ops, h.Op{Name: "push manifest I1 as t1 (blobs must be there)", Do: func(w *h.World) []h.Violation {
